@@ -19,7 +19,7 @@
 """
 import ast
 
-from sa.canon import Canon, f_show, f_equiv, A, f_and, f_not
+from sa.canon import Canon, f_show, f_equiv, A, f_and, f_not, respell
 from sa.ctx import ACT_MOD, ENV_MOD
 from sa.interp import Interp, C
 from sa.model import AnalysisError
@@ -83,9 +83,8 @@ def run(ctx, chk):
                                                  else s.events[0]))
     AS = "list(scenario.scenario_dict['host'].keys())"
     want_iters = {"ServiceScan": [AS], "OSScan": [AS], "SubnetScan": [AS], "ProcessScan": [AS],
-                  "Exploit": [AS, "scenario.scenario_dict['exploits'].items()"],
-                  "PrivilegeEscalation": [AS, "scenario.scenario_dict['privilege_escalation']"
-                                          ".items()"]}
+                  "Exploit": [AS, "scenario.scenario_dict['exploits']"],
+                  "PrivilegeEscalation": [AS, "scenario.scenario_dict['privilege_escalation']"]}
     for cls, wi in want_iters.items():
         got = per_addr.get(cls, [])
         ok = len(got) == 1 and got[0][0] == wi and not got[0][1]
@@ -107,7 +106,7 @@ def run(ctx, chk):
                        cost == f"scenario.scenario_dict['{SCAN_COST[cls]}']", cost, ev.loc)
             else:
                 src = "exploits" if cls == "Exploit" else "privilege_escalation"
-                D = f"each(scenario.scenario_dict['{src}'].items())[1]"
+                D = respell(f"each(scenario.scenario_dict['{src}'].items())[1]")
                 check_def_fields(chk, cn, f, cls, D, ev.loc, "load_action_list")
     extra = set(per_addr) - set(want_iters)
     chk.ob("C11.enumeration", "nothing else is appended to the action list", not extra,
@@ -187,7 +186,8 @@ def check_maps(ctx, chk):
         ip = Interp(repo, ctx.types, param_types={fi.params[0]: "Scenario"})
         s = ip.run(fi)
         cn = Canon(ip, ctx.layout)
-        D = f"each(self.scenario_dict['{src}'].items())"
+        DD = f"self.scenario_dict['{src}']"
+        DK, DV = f"each({DD})", f"{DD}[each({DD})]"
         # inner definition dicts
         inner = [ev for ev in s.events if ev.kind == "store" and ev.data["target"] == "sub"
                  and ev.data["value"][0] == "dictobj"
@@ -198,8 +198,8 @@ def check_maps(ctx, chk):
             ev = inner[0]
             items = ip.heap[ev.data["value"][1]]["items"]
             got = {k: cn.show(v) for k, v in items.items()}
-            want = {n: f"{D}[1]['{n}']" for n in fields}
-            want["name"] = f"{D}[0]"
+            want = {n: f"{DV}['{n}']" for n in fields}
+            want["name"] = DK
             idx = cn.show(ev.data["idx"])
             base = cn.show(ev.data["base"])
             cond = cn.conj(tuple(c for c in ev.pc if c[0] not in ("inloop", "fact")))
@@ -211,7 +211,7 @@ def check_maps(ctx, chk):
                 okey = cn.show(bt[2])
             elif bt[0] == "mcall" and bt[2] in ("setdefault", "get") and bt[3]:
                 okey = cn.show(bt[3][0])
-            ok = got == want and idx == f"{D}[1]['os']" and okey == f"{D}[1]['{key1}']"
+            ok = got == want and idx == f"{DV}['os']" and okey == f"{DV}['{key1}']"
             detail = f"stored under [{base[-60:]}][{idx}] fields {got} when {f_show(cond)[:200]}"
         chk.ob("C11.definition", f"Scenario.{prop}: every field copied from the definition, indexed "
                f"by the definition's own ({key1}, os)", ok, detail, fi.module.path)
